@@ -504,6 +504,12 @@ class Evaluator:
                 elif cur is not None and cur[0] == "list" and meth == "extend" and len(v[2]) == 1:
                     a = v[2][0]
                     st.env[nm] = ("list", cur[1] + (a[1] if plain_seq(a) else (("star", a),)))
+                elif cur is not None and cur[0] == "comp" and cur[1] == "list" and meth in ("append", "extend") and len(v[2]) == 1:
+                    a = v[2][0]
+                    st.env[nm] = ("list", (("star", cur),) + ((a,) if meth == "append" else (a[1] if plain_seq(a) else (("star", a),))))
+                elif cur is not None and cur[0] == "comp" and cur[1] == "dict" and meth == "update" and len(v[2]) == 1:
+                    a = v[2][0]
+                    st.env[nm] = ("dict", ((None, cur),) + (a[1] if a[0] == "dict" else ((None, a),)))
                 elif cur is not None and cur[0] == "dict" and meth == "update" and len(v[2]) == 1:
                     a = v[2][0]
                     if a[0] == "call" and a[1] == ("glob", "builtins.dict") and len(a[2]) == 1:
